@@ -20,6 +20,7 @@ structure Case where
   nmax : Nat := 0
   dense : Bool := true
   h : Float := 0            -- RK4's fixed step
+  nstiff : Option Nat := none   -- `stiff_test` given to the builder (DOPRI5 / DOP853), else the default
   script : List (Nat × Option Float) := []    -- callback index ↦ Interrupt (none) / Modify c (some c)
   odeT : Array Float := #[]
   odeY : Array (Array Float) := #[]
@@ -114,14 +115,14 @@ def runCase (c : Case) : String :=
     let hmax := c.maxstep.getD span
     let P : HParams Float n := dopri5Params { hl with stiffLimit := Float.ofBits Gen.Static.dopri5_stiffLimit } c.xend posneg
       (Float.ofBits Gen.Static.dopri5_uround) (Float.ofBits Gen.Static.dopri5_safety_factor) (Float.ofBits Gen.Static.dopri5_scale_min)
-      (Float.ofBits Gen.Static.dopri5_scale_max) (Float.ofBits Gen.Static.dopri5_beta) hmax c.nmax Gen.Static.dopri5_stiff_test c.dense
+      (Float.ofBits Gen.Static.dopri5_scale_max) (Float.ofBits Gen.Static.dopri5_beta) hmax c.nmax (c.nstiff.getD Gen.Static.dopri5_stiff_test) c.dense
     fmtRes n c (hSolve P (dopri5Kernel atol rtol) f ob 0 c.x0 y0 c.first
       (hinitCall atol rtol c.x0 y0 posneg (Float.rustMin hmax span) Gen.Static.dopri5_hinitOrder) (Float.ofBits Gen.Static.dopri5_facold0) 0.0 fuel)
   else if c.method == "DOP853" then
     let hmax := (c.maxstep.map Float.abs).getD span
     let P : HParams Float n := dop853Params { hl with stiffLimit := Float.ofBits Gen.Static.dop853_stiffLimit } c.xend posneg
       (Float.ofBits Gen.Static.dop853_uround) (Float.ofBits Gen.Static.dop853_safety_factor) (Float.ofBits Gen.Static.dop853_scale_min)
-      (Float.ofBits Gen.Static.dop853_scale_max) (Float.ofBits Gen.Static.dop853_beta) hmax c.nmax Gen.Static.dop853_stiff_test c.dense
+      (Float.ofBits Gen.Static.dop853_scale_max) (Float.ofBits Gen.Static.dop853_beta) hmax c.nmax (c.nstiff.getD Gen.Static.dop853_stiff_test) c.dense
     fmtRes n c (hSolve P (dop853Kernel atol rtol) f ob 0 c.x0 y0 c.first
       (hinitCall atol rtol c.x0 y0 posneg (Float.rustMin hmax span) Gen.Static.dop853_hinitOrder) (Float.ofBits Gen.Static.dop853_facold0) 0.0 fuel)
   else if c.method == "RK23" then
@@ -148,7 +149,8 @@ def step (c : Case) (line : String) : Case × String :=
     ({ c with method := m, n := (get kv "n").toNat!, x0 := parseF (get kv "x0"), xend := parseF (get kv "xend"),
               rtol := parseFs (get kv "rtol"), atol := parseFs (get kv "atol"), first := optF (get kv "first"),
               maxstep := optF (get kv "maxstep"), nmax := (get kv "nmax").toNat!, dense := get kv "dense" == "1",
-              h := parseF (get kv "h"), script := parseScript (get kv "script") }, "ok")
+              h := parseF (get kv "h"), script := parseScript (get kv "script"),
+              nstiff := (if get kv "nstiff" == "" || get kv "nstiff" == "-" then none else some (get kv "nstiff").toNat!) }, "ok")
   | ["ode", t, y, d] =>
     ({ c with odeT := c.odeT.push (parseF t), odeY := c.odeY.push (parseFs y), odeD := c.odeD.push (parseFs d) }, "ok")
   | ["run"] => (c, runCase c)
